@@ -4,6 +4,8 @@ pub mod c01;
 pub mod c02;
 pub mod c03;
 pub mod c05;
+pub mod c12;
+pub mod c19;
 pub mod model;
 pub mod common;
 
@@ -14,6 +16,8 @@ pub fn build(id: &str, tier: &str) -> Option<Check> {
         "C02" => c02::build(quick),
         "C03" => c03::build(quick),
         "C05" => c05::build(quick),
+        "C12" => c12::build(quick),
+        "C19" => c19::build(quick),
         _ => return None,
     })
 }
